@@ -395,12 +395,18 @@ where
         &&& self.peek matches Some(ev) ==> de_wf(ev)
         &&& self.peek matches Some(DeEvent::Text(_)) ==> self.reader.text_done()
     }
-    /// nothing peeked and the reader's look-ahead does not continue a text: the next event is not a Text
-    spec fn after_text(&self) -> bool { self.peek is None && self.reader.text_done() }
-    pub closed spec fn peeked_text(&self) -> bool { self.peek matches Some(DeEvent::Text(_)) }
-    pub closed spec fn peeked_start(&self) -> bool { self.peek matches Some(DeEvent::Start(_)) }
+    /// the event that has been looked at but not consumed (the contracts of the accessors speak about it through this function only,
+    /// so that they are the same for the two builds of the deserializer)
+    pub closed spec fn head(&self) -> Option<DeEvent<'de>> { self.peek }
+    /// the next event is not a Text: what has been looked at is not one, or nothing has and the reader's look-ahead does not
+    /// continue a text
+    pub closed spec fn after_text(&self) -> bool {
+        match self.head() { None => self.reader.text_done(), Some(e) => !(e is Text) }
+    }
+    pub closed spec fn peeked_text(&self) -> bool { self.head() matches Some(DeEvent::Text(_)) }
+    pub closed spec fn peeked_start(&self) -> bool { self.head() matches Some(DeEvent::Start(_)) }
     /// the next event is a Text without content (an empty CDATA section)
-    pub closed spec fn next_is_empty_text(&self) -> bool { self.peek matches Some(DeEvent::Text(t)) && t.text@.len() == 0 }
+    pub closed spec fn next_is_empty_text(&self) -> bool { self.head() matches Some(DeEvent::Text(t)) && t.text@.len() == 0 }
 //@extract de::Deserializer::new | src/de/mod.rs :: impl<'de, R, E> Deserializer<'de, R, E> where R: XmlRead<'de>, E: EntityResolver, :: fn new | serves=C07 features=serialize
     /// Create an XML deserializer from one of the possible quick_xml input sources.
     ///
@@ -423,9 +429,9 @@ where
 //@extract de::Deserializer::peek | src/de/mod.rs :: impl<'de, R, E> Deserializer<'de, R, E> where R: XmlRead<'de>, E: EntityResolver, :: fn peek | serves=C07 features=serialize
     fn peek(&mut self) -> (r: Result<&DeEvent<'de>, DeError>)
         requires old(self).inv()
-        ensures final(self).inv(), r matches Ok(e) ==> final(self).peek == Some(*e) && de_wf(*e),
+        ensures final(self).inv(), r matches Ok(e) ==> final(self).head() == Some(*e) && de_wf(*e),
             // peeking twice is peeking once
-            old(self).peek is Some ==> r is Ok && *final(self) == *old(self),
+            old(self).head() is Some ==> r is Ok && *final(self) == *old(self),
     {
         if self.peek.is_none() {
             self.peek = Some(self.reader.next()?);
@@ -443,8 +449,8 @@ where
 //@extract de::Deserializer::next | src/de/mod.rs :: impl<'de, R, E> Deserializer<'de, R, E> where R: XmlRead<'de>, E: EntityResolver, :: fn next | serves=C07 features=serialize
     fn next(&mut self) -> (r: Result<DeEvent<'de>, DeError>)
         requires old(self).inv()
-        ensures final(self).inv(), r matches Ok(ev) ==> de_wf(ev), r is Ok ==> final(self).peek is None,
-            old(self).peek matches Some(ev) ==> r == Result::<DeEvent<'de>, DeError>::Ok(ev) && final(self).reader == old(self).reader,
+        ensures final(self).inv(), r matches Ok(ev) ==> de_wf(ev), r is Ok ==> final(self).head() is None,
+            old(self).head() matches Some(ev) ==> r == Result::<DeEvent<'de>, DeError>::Ok(ev) && final(self).reader == old(self).reader,
             r matches Ok(DeEvent::Text(_)) ==> final(self).after_text(),
             old(self).after_text() ==> !(r matches Ok(DeEvent::Text(_))),
     {
@@ -457,8 +463,8 @@ where
 //@extract de::Deserializer::last_peeked | src/de/mod.rs :: impl<'de, R, E> Deserializer<'de, R, E> where R: XmlRead<'de>, E: EntityResolver, :: fn last_peeked | serves=C07 features=serialize
     fn last_peeked(&self) -> (r: &DeEvent<'de>)
         // `peek()` was called before: the slot is filled
-        requires self.peek is Some
-        ensures self.peek == Some(*r)
+        requires self.head() is Some
+        ensures self.head() == Some(*r)
     {
         {
             self.peek
@@ -470,7 +476,7 @@ where
 //@extract de::Deserializer::read_to_end | src/de/mod.rs :: impl<'de, R, E> Deserializer<'de, R, E> where R: XmlRead<'de>, E: EntityResolver, :: fn read_to_end | serves=C07 features=serialize
     fn read_to_end(&mut self, name: QName) -> (r: Result<(), DeError>)
         requires old(self).inv()
-        ensures final(self).inv(), r is Ok ==> final(self).peek is None
+        ensures final(self).inv()
     {
         // First one might be in self.peek
         match self.next()? {
@@ -484,7 +490,7 @@ where
 //@extract de::Deserializer::skip_next_tree | src/de/mod.rs :: impl<'de, R, E> Deserializer<'de, R, E> where R: XmlRead<'de>, E: EntityResolver, :: fn skip_next_tree | serves=C07 features=serialize
     fn skip_next_tree(&mut self) -> (r: Result<(), DeError>)
         // only called when the next event -- already peeked -- is a Start: the `unreachable!()` is unreachable
-        requires old(self).inv(), old(self).peek matches Some(DeEvent::Start(_))
+        requires old(self).inv(), old(self).peeked_start()
         ensures final(self).inv()
     {
         let DeEvent::Start(start) = self.next()? else {
@@ -613,7 +619,7 @@ where
     /// text -- otherwise a caller that asks again (a sequence of options at the top level) would be answered `None` forever
     #[verifier::prophetic]
     closed spec fn opt_post(&self) -> bool {
-        (**self).next_is_empty_text() ==> (*final(*self)).peek is None
+        (**self).next_is_empty_text() ==> (*final(*self)).after_text()
     }
 //@extract de::Deserializer::deserialize_option | src/de/mod.rs :: impl<'de, 'a, R, E> de::Deserializer<'de> for &'a mut Deserializer<'de, R, E> where R: XmlRead<'de>, E: EntityResolver, :: fn deserialize_option | serves=C07 features=serialize
     fn deserialize_option<V>(self, visitor: V) -> (r: Result<V::Value, DeError>)
